@@ -93,7 +93,8 @@ def _junctions(draw):
             p["i"] = 0
         evs.append(p)
     return dict(part="junctions", method=method, dtype="float64", prob=dict(kind="const", y0=[0.25, -1.0], v=[1.0, 0.5]), t0=t0, tf=tf, dt=h,
-                rtol=1e-6, atol=1e-6, dense=draw(st.booleans()), events=evs, pre_targets=[t0 + sgn * k * h for k in ks])
+                rtol=1e-6, atol=1e-6, dense=draw(st.booleans()), events=evs, pre_targets=[t0 + sgn * k * h for k in ks],
+                dir_after=[draw(st.sampled_from([None, None, 1, -1, 0])) for _ in evs])
 
 
 def parts(tier):
@@ -264,7 +265,16 @@ def check(case):
                 break
             # (5) direction: read from the harness' own Hermite piece of the containing step (the recorded trajectory
             #     itself), probing 1e-4 of the step on either side of the record, along the direction of integration
-            if ev.direction != 0:
+            # (the direction requested when the record was made: an attribute changed between two calls counts from the next call)
+            want_dir = ev.direction
+            if case.get("dir_after") and case.get("pre_targets"):
+                tj1 = case["pre_targets"][0]
+                if abs(te - tj1) <= 64 * eps * max(1.0, abs(tj1)):
+                    # on the junction itself either call may have made the record: judged only if both requests agree
+                    want_dir = ev.direction if getattr(ev, "direction0", ev.direction) == ev.direction else 0
+                elif sgn * (te - tj1) < 0:
+                    want_dir = getattr(ev, "direction0", ev.direction)
+            if want_dir != 0:
                 fk = np.asarray(P(t[k], y[k]), dtype=np.float64)
                 fk1 = np.asarray(P(t[k + 1], y[k + 1]), dtype=np.float64)
                 dstep = 1e-4 * (t[k + 1] - t[k])
@@ -278,9 +288,9 @@ def check(case):
                 gb, ga = g_num(te - dstep), g_num(te + dstep)
                 if gb * ga < 0 and not rich:
                     s_num = 1 if ga > gb else -1
-                    if s_num != ev.direction:
+                    if s_num != want_dir:
                         viols.append(V("event_direction", "{}: event of #{} (direction {}) reported at t={!r} where g along the recorded trajectory goes from {:.3e} to {:.3e} in the direction of integration ({})".format(
-                            method, j, ev.direction, te, gb, ga, "backward" if backward else "forward"), sig, **attrs))
+                            method, j, want_dir, te, gb, ga, "backward" if backward else "forward"), sig, **attrs))
                         break
             # uniqueness: two records of one function at (numerically) the same time
             dup = [u for u in used.values() if abs(u - te) <= 64 * eps * max(1.0, abs(te)) + 1e-6 * abs(t[k + 1] - t[k])]
